@@ -179,6 +179,30 @@ def atmos_table(env):
     node_ok = all(abs(float(np.asarray(cols[k](h)).reshape(-1)[0]) - float(np.asarray(getattr(d, k))[i])) <= 1e-9 * abs(float(np.asarray(getattr(d, k))[i]))
                   for k in cols for i, h in enumerate(alt))
     env.holds("C17", "the interpolants reproduce the table at its nodes", node_ok)
+    # the same relations on what the component hands on, in the units it declares (read through OpenMDAO's unit conversion, as
+    # any consumer of the outputs does): SI values at every table node
+    import openmdao.api as om
+    from openmdao.utils.units import convert_units
+    from .. import sx
+    with sx.unpatched():
+        p = om.Problem(reports=False)
+        p.model.add_subsystem("atmos", A.AtmosComp(), promotes=["*"])
+        p.setup()
+        meta = p.model._var_allprocs_abs2meta["output"]
+        units = {k.rsplit(".", 1)[-1]: v["units"] for k, v in meta.items() if k.startswith("atmos.")}
+        in_units = p.model._var_allprocs_abs2meta["input"]["atmos.altitude"]["units"]
+        bad = []
+        for h in alt[::3]:
+            p.set_val("altitude", convert_units(float(h), "ft", in_units))
+            p.run_model()
+            si = {k: float(convert_units(np.asarray(p.get_val(k)).reshape(-1)[0], units[k], u)) for k, u in
+                  (("T", "K"), ("P", "Pa"), ("rho", "kg/m**3"), ("speed_of_sound", "m/s"))}
+            e1 = si["P"] / (si["rho"] * 287.05 * si["T"]) - 1
+            e2 = si["speed_of_sound"] ** 2 / (1.4 * 287.05 * si["T"]) - 1
+            if abs(e1) > 3e-3 or abs(e2) > 2e-3:
+                bad.append((float(h), round(e1, 4), round(e2, 4)))
+    env.holds("C17", "atmosphere outputs in their declared units (converted to SI): P == rho R T and a^2 == gamma R T at every third table node (0.3 %)",
+              not bad, "altitude ft, ideal-gas error, speed-of-sound error: %s" % bad[:3])
     env.assumptions.add("atmosphere: consistency between table nodes is sampled at mid-points only (Akima interpolation of data)")
 
 
